@@ -402,6 +402,12 @@ func (r *InhibitRule) gcCallback(alerts []*types.Alert) {
 		fp := r.fingerprintEquals(a.Labels)
 		r.sindex.Delete(fp)
 	}
+	// The index holds a single source alert per set of equal labels. Other
+	// cached source alerts may share the equal labels of a deleted one, so
+	// index the remaining alerts again.
+	for _, a := range r.scache.List() {
+		r.updateIndex(a)
+	}
 }
 
 // hasEqual checks whether the source cache contains alerts matching the equal
@@ -411,10 +417,27 @@ func (r *InhibitRule) gcCallback(alerts []*types.Alert) {
 func (r *InhibitRule) hasEqual(lset model.LabelSet, excludeTwoSidedMatch bool, now time.Time) (model.Fingerprint, bool) {
 	equal, found := r.findEqualSourceAlert(lset, now)
 	if found {
-		if excludeTwoSidedMatch && r.TargetMatchers.Matches(equal.Labels) {
-			return model.Fingerprint(0), false
+		if !excludeTwoSidedMatch || !r.TargetMatchers.Matches(equal.Labels) {
+			return equal.Fingerprint(), found
 		}
-		return equal.Fingerprint(), found
+	}
+
+	// The index holds a single source alert per set of equal labels. If there
+	// is no entry, no cached source alert has these equal labels. If there is
+	// one but it is resolved or excluded, another source alert with the same
+	// equal labels may still be firing: fall back to scanning the cache.
+	equalsFP := r.fingerprintEquals(lset)
+	if _, ok := r.sindex.Get(equalsFP); !ok {
+		return model.Fingerprint(0), false
+	}
+	for _, a := range r.scache.List() {
+		if a.ResolvedAt(now) || r.fingerprintEquals(a.Labels) != equalsFP {
+			continue
+		}
+		if excludeTwoSidedMatch && r.TargetMatchers.Matches(a.Labels) {
+			continue
+		}
+		return a.Fingerprint(), true
 	}
 
 	return model.Fingerprint(0), false
